@@ -85,7 +85,12 @@ def do_replay(pid, path):
     if not case:
         print("  (no concrete input recorded: ", data.get("broken"), ")")
         return 0
+    if any(c.get("session") for c in case["calls"]):
+        print("  (operations on a live object: the sequence is re-executed on the model below; implementation outcomes as recorded)")
     for c in case["calls"]:
+        if c.get("session"):
+            print(f"  impl  {c['fn']}({', '.join(c['args'])[:160]})")
+            continue
         args = [core.dec_tok(t) for t in c["args"]]
         ent = bytes.fromhex(c.get("entropy") or "")
         r = core.call_impl(c["fn"], args, stream=c.get("stream", "plain"), replay_entropy=ent if ent else None)
